@@ -57,9 +57,12 @@ def run(ctx):
     from . import c09
     ctx.guard('C06.analysable', ctx.shared, {'C09.b-single-source': 'C06.h-validated-by-the-selected-rate'}, c09.check, ctx, f0, cfgs[0])
     ctx.guard('C06.analysable', c04.store_resize_complete, ctx, f0, cfgs[0], 'C06.d-store-geometry')
+    ctx.rule('C06.k-rejected-call-changes-nothing', 'a call that returns Err leaves the object as it was, so that the valid calls that follow are judged against the configuration and shards they were made for (no spurious DifferentShardSize / TooMany..., no panic on a half-applied configuration; clause shared with C07.atomic)')
+    from . import c07 as c07_
+    ctx.guard('C06.analysable', ctx.shared, {'C07.atomic': 'C06.k-rejected-call-changes-nothing'}, c07_.check_cfg, ctx, f0, cfgs[0])
     ctx.rule('C06.j-engines-run-one-schedule', 'valid use does not panic whichever engine runs it: the slicing and split arithmetic of the transform schedules, in range for the reference form, is the same in every optimised engine (clause shared with C03.a)')
     from . import c03 as c03_
-    for c_ in ('x86_64', 'aarch64'):
+    for c_ in ('x86_64',):      # the Neon schedule is compared by C03 / C09 / C14 (aarch64 facts); here the x86 engines
         ctx.guard('C06.analysable', ctx.shared, {'C03.a-schedule-siblings': 'C06.j-engines-run-one-schedule'}, c03_.schedules, ctx, ctx.facts(c_), c_)
     ctx.guard('C06.analysable', ctx.shared, {'C10.b-iterators': 'C06.e-one-shot-items-validated', 'C10.b-items-reach-add': 'C06.e-one-shot-items-validated'}, c10.both, ctx, f0, cfgs[0])
     for cfg in cfgs:
@@ -343,7 +346,14 @@ def judge(fn, variant, fields, atoms, cmps, conds, env, RL):
             for rel, a, b in cmps:
                 if rel == 'lt' and a == want and b == oc:
                     return None
-            return 'no governing condition `original_received + recovery_received < original_count`'
+                # `recovery_received < original_count - original_received`: the same inequality, and the subtraction cannot
+                # wrap because original_received <= original_count is kept by the add path (TooManyOriginalShards is reported
+                # at equality, before the counter is incremented; that site is judged by this rule too).  The mirrored form
+                # `original_received < original_count - recovery_received` has no such invariant: recovery_received is bounded
+                # by recovery_count only, so it is not accepted.
+                if rel == 'lt' and a == rrc and b == ('bin', 'Sub', oc, orc):
+                    return None
+            return 'no governing condition `original_received + recovery_received < original_count` (or `recovery_received < original_count - original_received`)'
         # one-shot: both caller iterators empty, literal zeros
         if oc != ('local', 'original_count') or 'original_count' not in usize_params():
             return 'original_count field is not the original_count parameter'
